@@ -53,7 +53,8 @@ def confirm(seed_dir: Path):
         for prop in built_props():
             rc_c, out_c = sh([PY, "-m", "esv", "check", prop], cwd="/verif", env=cenv)
             if rc_c != 0:
-                rules = sorted({l.split(" ")[2] if l.startswith("explorerscript") else "" for l in out_c.splitlines() if "]: " in l and l.startswith("explorerscript")})
+                import re
+                rules = sorted({m.group(1) for l in out_c.splitlines() if (l.startswith("explorerscript") or l.startswith("docs")) for m in [re.search(r" (C\d\d-R\d+) \[", l)] if m})
                 caught[prop] = {"exit": rc_c, "rules": [r for r in rules if r]}
         res["caught_by"] = caught
     finally:
